@@ -95,3 +95,4 @@ package ice
 //@   props C17
 //@   opt nosafety
 //@   site store tcpPriorityOffset#1 assert the-configured-offset-zero-included-is-taken-as-is: value == old(offset)
+
